@@ -97,7 +97,19 @@ func (s *State) doCall(call *ssa.Call, cc *ssa.CallCommon) ([]*State, bool) {
 	if j := strings.Index(name, "::"); j >= 0 {
 		anchorName = name[j+2:]
 	}
-	s.runGhost(fr, fmt.Sprintf("before %s#%d", anchorName, occ))
+	if fr.Spec != nil && fr.Caller == nil && len(fr.Spec.Ghost) > 0 {
+		// ghost statements anchored before a call see its arguments as carg0, carg1, ... (receiver first for methods)
+		extra := map[string]TV{}
+		for i, a := range cc.Args {
+			func() {
+				defer func() { recover() }()
+				extra[fmt.Sprintf("carg%d", i)] = s.valueTV(s.get(a), a.Type())
+			}()
+		}
+		s.ghostExtra = extra
+		s.runGhost(fr, fmt.Sprintf("before %s#%d", anchorName, occ))
+		s.ghostExtra = nil
+	}
 	defer func() {
 		// note: for inlined calls this runs when the frame is pushed, not on return; ghost anchors
 		// after inlined calls are therefore not supported (contract calls only)
@@ -1212,6 +1224,12 @@ func (s *State) runGhostAfter(fr *Frame, call *ssa.Call, anchor string) {
 		return
 	}
 	extra := map[string]TV{}
+	for i, a := range call.Call.Args {
+		func() {
+			defer func() { recover() }()
+			extra[fmt.Sprintf("carg%d", i)] = s.valueTV(s.get(a), a.Type())
+		}()
+	}
 	if v, ok := fr.Vals[call]; ok && v != nil {
 		if tup, ok := call.Type().(*types.Tuple); ok {
 			if tv, ok := v.(*Tuple); ok {
